@@ -773,6 +773,11 @@ func TestC05(t *testing.T) {
 		r.Op(u.line(), b)
 		if a != b {
 			r.Hit("estimate_default_collision", "estimate 0 and 300000 sign differently", u.line())
+		} else {
+			// the clause "changing the elected gas estimate changes the signing bytes" is false between 0
+			// (nothing elected yet) and 300000, and nothing keeps validators from signing before the
+			// election (known finding C05-estimate-default; reported as KNOWN-FINDING)
+			r.Hit("elected_estimate_binds", "estimate-default: an update_valset message signs the same bytes with no elected estimate (0) as with an elected estimate of 300000; signatures are accepted before the election (no HasGasEstimate gate on signing), so they authorise gas_estimate=300000, which nobody elected", map[string]string{"message": u.line(), "digest": a})
 		}
 	}
 
